@@ -34,6 +34,10 @@ enum Instant {
     BeforeOpen,
     AfterOpen,
     AfterFirstAccess,
+    /// unavailable before the container is opened and while every content is asked for once;
+    /// then the packs are put back where the manifest says and everything is asked for again on
+    /// the same container object: availability is a fact about the moment of the access
+    HealedAfterFirstAnswers,
 }
 
 #[derive(Clone, Debug)]
@@ -186,8 +190,12 @@ fn containers(seed: u64, tier: Tier) -> Vec<(String, Logical)> {
                     },
                     dedup: false,
                     aux_seed: rng.next_u64(),
+                    // pack files next to the manifest, in a sub-directory, in a sibling directory
+                    // ("../sib/<name>", what BasicCreator records for an extra pack created there),
+                    // or recorded as "./<name>"
                     opts: gen::LogicalOpts {
                         shuffle_manifest: k % 2 == 1,
+                        pack_location_style: (k % 4) as u8,
                         ..Default::default()
                     },
                 },
@@ -229,7 +237,7 @@ fn cases_for(model: &gen::Model, seed: u64) -> Vec<Case> {
             continue;
         }
         for kind in [Kind::Removed, Kind::Directory, Kind::OtherPack, Kind::Renamed, Kind::DanglingSymlink, Kind::SymlinkToOtherPack] {
-            for instant in [Instant::BeforeOpen, Instant::AfterOpen, Instant::AfterFirstAccess] {
+            for instant in [Instant::BeforeOpen, Instant::AfterOpen, Instant::AfterFirstAccess, Instant::HealedAfterFirstAnswers] {
                 out.push(Case {
                     subset,
                     kind,
@@ -380,13 +388,105 @@ fn pack_info_leaf(img: &Image, p: u16) -> Option<String> {
     None
 }
 
+/// Ask for every content (in `order`) and every pack; `missing(p)` says which packs are
+/// unavailable at this moment, `handle_may_serve` whether an unavailable pack may legitimately
+/// still be served from a handle opened while it was available.
+fn observe_contents(
+    container: &jubako::reader::Container,
+    img: &Image,
+    case: &Case,
+    order: &[usize],
+    missing: &dyn Fn(u16) -> bool,
+    handle_may_serve: bool,
+    tag: &str,
+    bad: &mut Vec<String>,
+) {
+    for &ci in order {
+        let c = &img.model.contents[ci];
+        let addr = jubako::ContentAddress::new(c.pack.into(), c.content_id.into());
+        let what = format!("{tag}content {ci} (pack {}, id {})", c.pack, c.content_id);
+        let got = container.get_bytes(addr);
+        let expect_info = pack_info_leaf(img, c.pack);
+        match got {
+            Err(e) => bad.push(format!("{what}: get_bytes returned Err({})", dump::err_class(&e))),
+            Ok(None) => bad.push(format!("{what}: get_bytes says the pack id is unknown")),
+            Ok(Some(MayMissPack::MISSING(info))) => {
+                if !missing(c.pack) {
+                    bad.push(format!("{what}: reported MISSING although its pack is available"));
+                } else if Some(dump::pack_info_string(&info)) != expect_info {
+                    bad.push(format!("{what}: MISSING carries a pack description that differs from the manifest's"));
+                }
+            }
+            Ok(Some(MayMissPack::FOUND(None))) => bad.push(format!("{what}: FOUND(None)")),
+            Ok(Some(MayMissPack::FOUND(Some(region)))) => {
+                let served_from_open_handle = missing(c.pack) && handle_may_serve;
+                if missing(c.pack) && !served_from_open_handle {
+                    match dump::read_region(&region) {
+                        Ok(b) if b == **c.bytes => bad.push(format!(
+                            "{what}: pack is unavailable ({:?}) but FOUND was answered (with the right bytes)",
+                            case.kind
+                        )),
+                        Ok(b) => bad.push(format!(
+                            "{what}: pack is unavailable ({:?}) but FOUND was answered with foreign bytes {:?}",
+                            case.kind,
+                            String::from_utf8_lossy(&b[..b.len().min(8)])
+                        )),
+                        Err(e) => bad.push(format!("{what}: pack unavailable, FOUND answered, read fails {e}")),
+                    }
+                } else if case.damaged == c.pack {
+                    // damaged content bytes may differ (the check must say so), never a panic
+                    let _ = dump::read_region(&region);
+                } else {
+                    match dump::read_region(&region) {
+                        Ok(b) if b == **c.bytes => {}
+                        Ok(_) => bad.push(format!("{what}: wrong bytes")),
+                        Err(e) => bad.push(format!("{what}: read error {e}")),
+                    }
+                }
+            }
+        }
+    }
+    // pack level
+    for p in 1..=img.model.n_packs + 1 {
+        if img.model.is_absent(p) || p > img.model.n_packs {
+            // an id the manifest does not list: "no such pack", not an error, not a pack
+            match container.get_pack(jubako::PackId::from(p)) {
+                Ok(None) => {}
+                Ok(Some(_)) => bad.push(format!("{tag}get_pack({p}) answers a pack although the manifest lists no pack with that id")),
+                Err(e) => bad.push(format!("{tag}get_pack({p}) (id not in the manifest) returned Err({})", dump::err_class(&e))),
+            }
+            continue;
+        }
+        match container.get_pack(jubako::PackId::from(p)) {
+            Err(e) => bad.push(format!("{tag}get_pack({p}) returned Err({})", dump::err_class(&e))),
+            Ok(None) => bad.push(format!("{tag}get_pack({p}) says unknown pack id")),
+            Ok(Some(MayMissPack::MISSING(_))) => {
+                if !missing(p) {
+                    bad.push(format!("{tag}get_pack({p}) MISSING although available"));
+                }
+            }
+            Ok(Some(MayMissPack::FOUND(_))) => {
+                if missing(p) && !handle_may_serve {
+                    bad.push(format!("{tag}get_pack({p}) FOUND although unavailable ({:?})", case.kind));
+                }
+            }
+        }
+    }
+}
+
 fn run_case(dir: &Path, img: &Image, case: &Case) -> Vec<String> {
     let mut bad: Vec<String> = vec![];
     // fresh copy of the file set
     let _ = std::fs::remove_dir_all(dir);
     std::fs::create_dir_all(dir).unwrap();
+    // a sibling directory left by an earlier case
+    let _ = std::fs::remove_dir_all(dir.join("../sib"));
     for (n, b) in &img.files {
-        std::fs::write(dir.join(n), b).unwrap();
+        let path = dir.join(n);
+        if let Some(parent) = path.parent() {
+            std::fs::create_dir_all(parent).unwrap();
+        }
+        std::fs::write(path, b).unwrap();
     }
     if case.damaged != 0 && img.embedded {
         let want = img.pristine.get(&format!("pack[{}]/uuid", case.damaged)).map(|l| l.short());
@@ -408,7 +508,7 @@ fn run_case(dir: &Path, img: &Image, case: &Case) -> Vec<String> {
         b[pos] ^= 0x5a;
         std::fs::write(dir.join(name), b).unwrap();
     }
-    if case.instant == Instant::BeforeOpen {
+    if matches!(case.instant, Instant::BeforeOpen | Instant::HealedAfterFirstAnswers) {
         apply_fault(dir, img, case);
     }
     let entry = dir.join(&img.files[0].0);
@@ -442,76 +542,29 @@ fn run_case(dir: &Path, img: &Image, case: &Case) -> Vec<String> {
         apply_fault(dir, img, case);
     }
     let missing = |p: u16| !img.embedded && case.subset & (1 << (p - 1)) != 0;
-    for &ci in &order {
-        let c = &img.model.contents[ci];
-        let addr = jubako::ContentAddress::new(c.pack.into(), c.content_id.into());
-        let what = format!("content {ci} (pack {}, id {})", c.pack, c.content_id);
-        let got = container.get_bytes(addr);
-        let expect_info = pack_info_leaf(img, c.pack);
-        match got {
-            Err(e) => bad.push(format!("{what}: get_bytes returned Err({})", dump::err_class(&e))),
-            Ok(None) => bad.push(format!("{what}: get_bytes says the pack id is unknown")),
-            Ok(Some(MayMissPack::MISSING(info))) => {
-                if !missing(c.pack) {
-                    bad.push(format!("{what}: reported MISSING although its pack is available"));
-                } else if Some(dump::pack_info_string(&info)) != expect_info {
-                    bad.push(format!("{what}: MISSING carries a pack description that differs from the manifest's"));
-                }
+    observe_contents(&container, img, case, &order, &missing, case.instant == Instant::AfterFirstAccess, "", &mut bad);
+    if case.instant == Instant::HealedAfterFirstAnswers {
+        // put every pack back where the manifest says and ask again, on the same container
+        for p in img.model.pack_ids() {
+            if case.subset & (1 << (p - 1)) == 0 {
+                continue;
             }
-            Ok(Some(MayMissPack::FOUND(None))) => bad.push(format!("{what}: FOUND(None)")),
-            Ok(Some(MayMissPack::FOUND(Some(region)))) => {
-                let served_from_open_handle = missing(c.pack) && case.instant == Instant::AfterFirstAccess;
-                if missing(c.pack) && !served_from_open_handle {
-                    match dump::read_region(&region) {
-                        Ok(b) if b == **c.bytes => bad.push(format!(
-                            "{what}: pack is unavailable ({:?}) but FOUND was answered (with the right bytes)",
-                            case.kind
-                        )),
-                        Ok(b) => bad.push(format!(
-                            "{what}: pack is unavailable ({:?}) but FOUND was answered with foreign bytes {:?}",
-                            case.kind,
-                            String::from_utf8_lossy(&b[..b.len().min(8)])
-                        )),
-                        Err(e) => bad.push(format!("{what}: pack unavailable, FOUND answered, read fails {e}")),
-                    }
-                } else if case.damaged == c.pack {
-                    // damaged content bytes may differ (the check must say so), never a panic
-                    let _ = dump::read_region(&region);
+            let name = &img.pack_file[&p];
+            let path = dir.join(name);
+            if let Ok(md) = std::fs::symlink_metadata(&path) {
+                if md.is_dir() {
+                    let _ = std::fs::remove_dir_all(&path);
                 } else {
-                    match dump::read_region(&region) {
-                        Ok(b) if b == **c.bytes => {}
-                        Ok(_) => bad.push(format!("{what}: wrong bytes")),
-                        Err(e) => bad.push(format!("{what}: read error {e}")),
-                    }
+                    let _ = std::fs::remove_file(&path);
                 }
             }
-        }
-    }
-    // pack level
-    for p in 1..=img.model.n_packs + 1 {
-        if img.model.is_absent(p) || p > img.model.n_packs {
-            // an id the manifest does not list: "no such pack", not an error, not a pack
-            match container.get_pack(jubako::PackId::from(p)) {
-                Ok(None) => {}
-                Ok(Some(_)) => bad.push(format!("get_pack({p}) answers a pack although the manifest lists no pack with that id")),
-                Err(e) => bad.push(format!("get_pack({p}) (id not in the manifest) returned Err({})", dump::err_class(&e))),
-            }
-            continue;
-        }
-        match container.get_pack(jubako::PackId::from(p)) {
-            Err(e) => bad.push(format!("get_pack({p}) returned Err({})", dump::err_class(&e))),
-            Ok(None) => bad.push(format!("get_pack({p}) says unknown pack id")),
-            Ok(Some(MayMissPack::MISSING(_))) => {
-                if !missing(p) {
-                    bad.push(format!("get_pack({p}) MISSING although available"));
-                }
-            }
-            Ok(Some(MayMissPack::FOUND(_))) => {
-                if missing(p) && case.instant != Instant::AfterFirstAccess {
-                    bad.push(format!("get_pack({p}) FOUND although unavailable ({:?})", case.kind));
-                }
+            if !img.embedded {
+                let bytes = &img.files.iter().find(|(n, _)| n == name).unwrap().1;
+                std::fs::write(&path, bytes).unwrap();
             }
         }
+        let nobody = |_p: u16| false;
+        observe_contents(&container, img, case, &order, &nobody, false, "after the packs were put back: ", &mut bad);
     }
     // entries and indexes are untouched by any of this
     let mut d = Dump::default();
@@ -584,26 +637,21 @@ pub fn worker_main(args: &Args, w: usize, n: usize) -> ! {
             }
             continue;
         }
-        let files: Vec<(String, Vec<u8>)> = built
-            .files
-            .iter()
-            .map(|f| {
-                (
-                    f.file_name().unwrap().to_string_lossy().to_string(),
-                    std::fs::read(f).unwrap(),
-                )
-            })
-            .collect();
+        // names relative to the directory of the entry file ("sub/x", "../sib/x" for pack files
+        // that live elsewhere)
+        let rel = |f: &std::path::PathBuf| -> String {
+            if let Some((p, _)) = built.pack_files.iter().find(|(_, v)| *v == f) {
+                return gen::pack_location(&logical, &name, *p);
+            }
+            f.file_name().unwrap().to_string_lossy().to_string()
+        };
+        let files: Vec<(String, Vec<u8>)> = built.files.iter().map(|f| (rel(f), std::fs::read(f).unwrap())).collect();
         let embedded = logical.packaging == Packaging::Concat;
         let pack_file: BTreeMap<u16, String> = if embedded {
             // the locations recorded in the manifest are the names the loose files had
             built.model.pack_ids().into_iter().map(|p| (p, format!("{name}.c{p}.jbkc"))).collect()
         } else {
-            built
-                .pack_files
-                .iter()
-                .map(|(k, v)| (*k, v.file_name().unwrap().to_string_lossy().to_string()))
-                .collect()
+            built.pack_files.keys().map(|k| (*k, gen::pack_location(&logical, &name, *k))).collect()
         };
         let img = Image {
             name: name.clone(),
